@@ -123,7 +123,8 @@ class Controller(object):
         msg = msg.strip()
 
         if not msg:
-            self.send_response(None, cid, msg, "error: empty command")
+            self.send_error(None, cid, msg, "error: empty command",
+                            errno=errors.BAD_MSG_DATA_ERROR)
         else:
             logger.debug("got message %s", msg)
             self.dispatch((cid, msg))
@@ -168,8 +169,13 @@ class Controller(object):
         cid, msg = job
         try:
             json_msg = json.loads(msg)
-        except ValueError:
+        except (ValueError, RecursionError):
             return self.send_error(None, cid, msg, "json invalid",
+                                   errno=errors.INVALID_JSON)
+
+        if not isinstance(json_msg, dict):
+            return self.send_error(None, cid, msg, "json invalid: a message "
+                                   "must be an object",
                                    errno=errors.INVALID_JSON)
 
         mid = json_msg.get('id')
@@ -179,7 +185,8 @@ class Controller(object):
 
         try:
             cmd = self.commands[cmd_name.lower()]
-        except KeyError:
+        except (KeyError, AttributeError):
+            # AttributeError: 'command' is missing or is not a string
             error_ = "unknown command: %r" % cmd_name
             return self.send_error(mid, cid, msg, error_, cast=cast,
                                    errno=errors.UNKNOWN_COMMAND)
